@@ -9,4 +9,5 @@ Extraction "model.ml"
   (* Codec *) enc size dec has_type ty_ok guards_fixed guards_pinned utf8_valid
   (* Db *) db_new exec transaction elements out_edges in_edges node_count edge_from edge_to
            imap_key kvs_get dbv_eqb dbv_cmp
-  (* FileWal *) trace crash recover walrev_fixed walrev_pinned well_positioned.
+  (* FileWal *) trace crash recover walrev_fixed walrev_pinned well_positioned
+  (* ConcRead *) conc_init conc_step conc_pc conc_lock conc_result file_read.
